@@ -32,17 +32,20 @@ def convertIpm (P maxLen : Nat) (envA envB : Env) (cfgRead cfgWrite : Config) (i
 def mciIpmEncode (P maxLen : Nat) (envA envB : Env) (cfg : Config) (inBlocked outBlocked : Bool) (file : Bytes) :=
   convertIpm P maxLen envA envB (noPds cfg) cfg inBlocked outBlocked file
 
+/-- `record.decode(A).encode(B)`: an undecodable byte or unencodable character is a UnicodeError -/
+def recodeRecord (a b : Codec) (rec : Bytes) : Outcome Bytes :=
+  match a.decode rec with
+  | none => .escape .unicodeError
+  | some t => match b.encode t with
+    | none => .escape .unicodeError
+    | some x => .ok x
+
 /-- record-wise `record.decode(A).encode(B)` of a parameter file -/
 def convertParam (P maxLen : Nat) (a b : Codec) (inBlocked outBlocked : Bool) (file : Bytes) : Outcome Bytes × Vbs.End :=
   let r := vbsBytesToList P maxLen inBlocked file
   match r.2 with
   | .eof =>
-    ((Outcome.mapO (fun (rec : Bytes) =>
-      match a.decode rec with
-      | none => (.escape .unicodeError : Outcome Bytes)
-      | some t => match b.encode t with
-        | none => .escape .unicodeError
-        | some x => .ok x) r.1).bind (fun recs => .ok (Writer.listToBytes P outBlocked recs)), .eof)
+    ((Outcome.mapO (recodeRecord a b) r.1).bind (fun recs => .ok (Writer.listToBytes P outBlocked recs)), .eof)
   | e => (.dataError, e)
 
 /-! ## CSV cells -/
